@@ -9,6 +9,7 @@ model instantiated with `Fixes.current`, i.e. with the repairs the source is fou
 import DmlcModel.Parse.Fm
 import DmlcModel.Parse.Cuts
 import DmlcModel.Parse.Csv
+import DmlcModel.Parse.Slices
 import DmlcModel.Parse.ConvSimple
 
 namespace DmlcModel.Props.C11
@@ -174,6 +175,22 @@ theorem C11_part_invariant_csv (prm : CsvParam) (conv : Conv) (hL : conv.Local)
     ∃ rs rz, ps.mapM (fun p => rows (.csv prm) conv (p.1 ++ [p.2])) = .ok rs ∧ rows (.csv prm) conv z = .ok rz ∧
       rows (.csv prm) conv (joinAfter ps z) = .ok (rs.flatten ++ rz) :=
   C11_chunk_invariant_csv prm conv hL ps z he hn hb rss hl ha
+
+/-- **FillData's thread slices satisfy the cut hypothesis** of `C11_thread_invariant_nary_*`: for a chunk of `size`
+bytes at position 0 of `mem` (the byte behind it readable) and `nthread ≥ 1` threads, thread `tid` parses
+`[cutAt tid, cutAt (tid + 1))` (the slice computed from Gen.nstep / sbegin / send and BackFindEndLine); the cuts
+start at 0, end at `size` and are monotone — the slices are contiguous and cover the chunk — and every interior
+cut is 0 (the slices in front of it are empty) or the position of an end-of-line byte.  So the non-empty slices
+are `z, e₁y₁, e₂y₂, …` with every `eᵢ` an end-of-line byte, the shape `joinAt z ps` of the n-ary theorems. -/
+theorem C11_fillData_slices (mem : Bytes) (size nthread : Nat) (h1 : 1 ≤ nthread) (hn : nthread < 4294967296)
+    (hs : size + nthread < 9223372036854775808) (hr : size < mem.length) :
+    cutAt mem size nthread 0 = 0 ∧ cutAt mem size nthread nthread = size ∧
+    (∀ i, i < nthread → cutAt mem size nthread i ≤ cutAt mem size nthread (i + 1)) ∧
+    (∀ i, 0 < i → i < nthread → cutAt mem size nthread i = 0 ∨
+      ∃ b, mem[cutAt mem size nthread i]? = some b ∧ isEolB b = true) ∧
+    (∀ tid, tid < nthread →
+      threadSlice mem size nthread tid = .ok (cutAt mem size nthread tid, cutAt mem size nthread (tid + 1))) :=
+  fillData_slices mem size nthread h1 hn hs hr
 
 /-! ### bytes after the block -/
 
